@@ -84,6 +84,8 @@ class ClosureSpec:
     block: ClauseBlock
     vc_line: int
     proof: str = ''
+    bind: Optional[str] = None     # rule R30: the closure expression `C` becomes `{ let NAME = C; proof { after } NAME }`
+    after: str = ''
 
 
 @dataclass
@@ -251,10 +253,13 @@ def parse_vc(path: str, text: str) -> List[FnContract]:
         elif name == 'closure':
             a = _split_quoted(args)
             k = int(a[0])
-            params = ret = None
+            params = ret = bind = None
             i = 1
             while i < len(a):
-                if a[i] == 'params':
+                if a[i] == 'bind':
+                    bind = _unq(a[i + 1])
+                    i += 2
+                elif a[i] == 'params':
                     params = _unq(a[i + 1])
                     i += 2
                 elif a[i] == 'ret':
@@ -263,9 +268,10 @@ def parse_vc(path: str, text: str) -> List[FnContract]:
                 else:
                     raise ContractError('%s:%d: bad @closure arg %r' % (path, ln0, a[i]))
             proof_lines = [l.split('proof:', 1)[1].strip() for _, l in body if l.strip().startswith('proof:')]
-            body = [(ln, l) for ln, l in body if not l.strip().startswith('proof:')]
+            after_lines = [l.split('after:', 1)[1].strip() for _, l in body if l.strip().startswith('after:')]
+            body = [(ln, l) for ln, l in body if not l.strip().startswith(('proof:', 'after:'))]
             cur.closures[k] = ClosureSpec(k, params, ret, _parse_clause_block(body, path, cur.serves, 'closure%d.' % k), ln0,
-                                          ' '.join(proof_lines))
+                                          ' '.join(proof_lines), bind, ' '.join(after_lines))
         elif name == 'insert':
             a = _split_quoted(args)
             grp = ''
